@@ -461,6 +461,11 @@ def getitem(I, base, key):
     if isinstance(key, OptVal):
         I.oblige(f"index_not_None@{I.cur_line}", key.present, "safety")
         key = _val(key.value)
+    if isinstance(base, E.Obj) and isinstance(key, str) and \
+            ("item_" + key) in base.attrs:
+        # an object of a dict subclass (CombinedReparameterisation): its
+        # entries are the shape attributes item_<key>
+        return base.attrs["item_" + key]
     if isinstance(base, Cell):
         val = base.read()
         if base.kind == "idict":
@@ -2180,6 +2185,20 @@ for _g in ("GA", "GB", "GJ", "HA", "HB", "HJ"):
     LIB["spec." + _g] = E.LibFunc(
         "spec." + _g, (lambda I, a, b, _gf=_gf: _gf(to_real(_val(a)),
                                                     to_real(_val(b)))))
+
+
+_UFS = {}
+
+
+@lib("spec.uf")
+def _spec_uf(I, name, *args):
+    """uf('F', x, ...): an uninterpreted real function named in a contract
+    (the same name is the same function everywhere)"""
+    k = (name, len(args))
+    if k not in _UFS:
+        _UFS[k] = z3.Function(f"uf_{name}", *([z3.RealSort()] *
+                                              (len(args) + 1)))
+    return _UFS[k](*[to_real(_val(a)) for a in args])
 
 
 @lib("numpy.mean")
